@@ -69,14 +69,19 @@ def kind_of(row):
     return cc.py_failed(row["c"], row["o"])
 
 
-IMPORT_TIMEOUT, IMPORT_MEMORY = 30, 2 << 30
+IMPORT_CPU, IMPORT_MEMORY, IMPORT_WALL = 120, 2 << 30, 1800
+HANG = {"ok": False, "exc": "Hang", "site": "fastimport:unbounded-allocation", "stage": "import",
+        "emsg": "import did not finish within %d s of CPU time / %d MB of address space" % (IMPORT_CPU, IMPORT_MEMORY >> 20)}
 
 
 def guarded(fn):
-    """Run fn() in a forked child with an address-space limit and a wall-clock limit and return its (picklable) result.
+    """Run fn() in a forked child with an address-space limit and a CPU-time limit and return its (picklable) result.
     An import that does not terminate (an inventory delta that creates a parent cycle makes the compiled CHKInventory
-    code append to a list for ever, un-interruptibly and at ~60 MB/s) must become an observation, not a dead worker."""
-    import pickle as _json
+    code append to a list for ever, un-interruptibly and at ~60 MB/s) must become an observation, not a dead worker.
+    The limits are on the child's own CPU time and memory, never on wall-clock time: a loaded machine must not turn a
+    slow import into a "hang" (a wall-clock limit did exactly that when six checks ran at once).  The wall-clock
+    backstop is a machinery failure, not an observation."""
+    import pickle
     import resource
     import select
     import signal
@@ -88,12 +93,14 @@ def guarded(fn):
         try:
             os.close(r)
             resource.setrlimit(resource.RLIMIT_AS, (IMPORT_MEMORY, IMPORT_MEMORY))
+            resource.setrlimit(resource.RLIMIT_CPU, (IMPORT_CPU, IMPORT_CPU + 5))
             try:
                 out = fn()
             except MemoryError:
-                out = {"ok": False, "exc": "MemoryError", "site": "fastimport:unbounded-allocation",
-                       "emsg": "import exceeded %d MB" % (IMPORT_MEMORY >> 20), "stage": "import"}
-            data = _json.dumps(out)
+                out = HANG
+            if isinstance(out, dict) and out.get("exc") == "MemoryError":
+                out = HANG
+            data = pickle.dumps(out)
             while data:
                 data = data[os.write(w, data):]
         except BaseException:  # noqa
@@ -101,7 +108,7 @@ def guarded(fn):
         finally:
             os._exit(code)
     os.close(w)
-    chunks, deadline = [], _time.time() + IMPORT_TIMEOUT
+    chunks, deadline = [], _time.time() + IMPORT_WALL
     try:
         while True:
             left = deadline - _time.time()
@@ -116,14 +123,17 @@ def guarded(fn):
                 chunks.append(b)
     finally:
         os.close(r)
-        os.waitpid(pid, 0)
+        _, status = os.waitpid(pid, 0)
+    if chunks is None:
+        raise core.MachineryError("an import child made no progress for %d s of wall-clock time" % IMPORT_WALL)
     if chunks:
         try:
-            return _json.loads(b"".join(chunks))
+            return pickle.loads(b"".join(chunks))
         except Exception:  # noqa
             pass
-    return {"ok": False, "exc": "Hang" if chunks is None else "MemoryError", "site": "fastimport:unbounded-allocation",
-            "emsg": "import did not finish within %d s / %d MB" % (IMPORT_TIMEOUT, IMPORT_MEMORY >> 20), "stage": "import"}
+    if os.WIFSIGNALED(status) and os.WTERMSIG(status) in (signal.SIGXCPU, signal.SIGKILL, signal.SIGABRT, signal.SIGSEGV):
+        return dict(HANG)        # CPU limit reached, or the allocator gave up at the address-space limit
+    raise core.MachineryError("an import child ended without a result (wait status %r)" % (status,))
 
 
 def fast_once(ctx, h, idx, root, names, variant, props=None):
